@@ -119,7 +119,7 @@ PROP = Prop(
         're.findall / re.search / str.split / str.strip / int() are uninterpreted functions of their arguments in the deductive part (Toks, ReSearch, ...): that '
         "''.join(Toks(line)) is the structure the line started with (A-TOK, the locus of the repaired defect F12b) and what the regular expressions match are "
         'decided only within the bounds of C20.bounded.cli',
-        'edit_rules() is under contract over a ghost file system ($fs: path -> chunks written, fs_text(path): text a file holds at entry); config is a record whose '
+        'edit_rules() is under contract over a ghost file system ($fs: path -> text written since open(.., "w"), fs_text(path): text a file holds at entry; A-STR-EXT: s[0:i] + s[i] == s[0:i+1] is supplied as an instance); config is a record whose '
         "'copy', 'terminal_set' and 'regex' entries are None-or-value (parse_command_line stores False or leaves the key out; only their truth value and .get() are used); "
         'exceptional exits (IOError / OSError) are unconstrained',
         'A-SPLIT-CONCAT: that the output of one filter is again a text whose non-empty lines have two TAB-separated fields is a precondition of edit_rules (fields_wf of the four '
